@@ -118,6 +118,14 @@ class World:
                 self.net.step(engine=self.cs, init_conditions={k_: v_ for k_, v_ in ic.items() if k_ in set(self.net.elements)},
                               **PARS_V[op[1] if len(op) > 1 else 0])
                 return "ok"
+            if k == "read":
+                # the caller looks things up between the calls (every derived look-up the network offers): what a
+                # look-up caches must not hide an element added afterwards from a later compilation
+                n_ = self.net
+                for attr in ("nodes_by_name", "links_by_name", "nodes_by_link", "origins", "origins_by_name", "origins_by_node",
+                             "destinations", "destinations_by_name", "destinations_by_node"):
+                    list(getattr(n_, attr))
+                return "ok"
             if k == "add":
                 if op[1] == 4:
                     self.net.add_origin(self.el[4], self.N[1])
@@ -151,7 +159,7 @@ class World:
 
 def coq_op(op):
     k = op[0]
-    if k == "stepelfail":
+    if k in ("stepelfail", "read"):
         return None                  # no transition of the model
     if k == "stepallmixed":
         return "StepAll Symbols"     # (placeholder: histories containing it are not compared with the model)
@@ -195,6 +203,8 @@ def random_history(rng, maxlen=10):
                 continue
             h.append(("stepelfail", rng.choice([0, 1])))
         elif r < 0.75:
+            if rng.random() < 0.4:
+                h.append(("read",))
             e = rng.choice([4, 5, 3, 6])
             h.append(("add", e))
             if e in (3, 5, 6):
@@ -241,6 +251,10 @@ def directed_histories():
         # a congested destination attached after the last step and never initialised
         [("stepall", "sym"), ("add", 6), T], [("stepall", "sym"), ("add", 5), ("add", 6), T],
         [("stepall", "sym"), ("add", 5), ("stepall", "sym"), ("add", 6), T], [("stepall", "sym"), ("add", 6), ("stepall", "sym"), T],
+        # look-ups read before an element is added: the compilation must still meet the new element
+        [("stepall", "sym"), ("read",), ("add", 4), T], [("stepall", "sym"), ("read",), ("add", 6), T],
+        [("stepall", "sym"), ("read",), ("add", 5), ("read",), ("add", 6), T],
+        [("stepall", "sym"), ("read",), ("add", 4), ("init", 4, "sym"), T], [("read",), ("add", 4), ("stepall", "sym"), ("read",), ("add", 6), T],
         # a step that fails leaves the element unstepped
         [("init", 0, "sym"), ("init", 1, "sym"), ("init", 2, "sym"), ("init", 3, "sym"), ("stepel", 0), ("stepel", 2), ("stepelfail", 1), T],
         [("stepall", "sym"), ("init", 1, "sym"), ("stepelfail", 1), T], [("stepall", "sym"), ("init", 0, "sym"), ("stepelfail", 0), T],
@@ -280,6 +294,10 @@ def run_C19(ctx):
                     if r != "ok":
                         out["failures"].append({"key": "C19:stepelfail", "history": h[:oi + 1], "sym": sym, "ramp": ramp,
                                                 "what": f"an element step without tau/eta/kappa returned {r} instead of raising TypeError"})
+                elif op[0] == "read":
+                    if r != "ok":
+                        out["failures"].append({"key": "C19:read", "history": h[:oi + 1], "sym": sym, "ramp": ramp,
+                                                "what": f"reading the network's look-ups returned {r}"})
                 else:
                     obs.append(r)
                 if op[0] == "tofun":
